@@ -373,7 +373,9 @@ class Facts:
         from . import places as _places
         _places.OPTION_LIKE_SOME.clear()
         _places.OPTION_LIKE_NONE.clear()
+        _places.OPTION_LIKE_SOME_MULTI.clear()
         self.option_like = {}
+        self.option_like_multi = {}
         for pth, a in self.adts.items():
             vs = a.get('variants', [])
             if a.get('kind') == 'Enum' and len(vs) == 2:
@@ -383,6 +385,12 @@ class Facts:
                     self.option_like[pth] = (pth + '::' + unit[0]['name'], pth + '::' + pay[0]['name'], pay[0]['fields'][0]['ty'])
                     _places.OPTION_LIKE_NONE.add(canon(pth + '::' + unit[0]['name']))
                     _places.OPTION_LIKE_SOME.add(canon(pth + '::' + pay[0]['name']))
+                multi = [x for x in vs if len(x['fields']) >= 2]
+                if len(unit) == 1 and len(multi) == 1:
+                    # isomorphic to Option<struct of the payload fields>
+                    self.option_like_multi[pth] = (pth + '::' + unit[0]['name'], pth + '::' + multi[0]['name'], multi[0]['fields'])
+                    _places.OPTION_LIKE_NONE.add(canon(pth + '::' + unit[0]['name']))
+                    _places.OPTION_LIKE_SOME_MULTI.add(canon(pth + '::' + multi[0]['name']))
         self.impls = self.raw['impls']
         self.statics = self.raw['statics']
         self.unsafes = self.raw['unsafes']
@@ -434,6 +442,39 @@ def norm_option_like_ty(facts, ty):
             pay = sub[pay['param']]
         return {'adt': 'std::option::Option', 'args': [pay]}
     return ty
+
+
+def oos_components(facts, ty):
+    """[(field name, field type)] when `ty` is an Option of a plain struct of the crate, or an option-like enum whose payload
+    variant has several fields: such a cell is presented as one Option cell per payload field, all present or absent together
+    (option of struct -> struct of options)."""
+    if not isinstance(ty, dict):
+        return None
+    view_adts = {imp['self_ty'].get('adt') for imp in facts.impls if imp.get('trait') == 'View'}
+    if ty.get('adt') in getattr(facts, 'option_like_multi', {}):
+        a = facts.adts[ty['adt']]
+        sub = dict(zip(a.get('generics', []), ty.get('args', [])))
+        out = []
+        for f in facts.option_like_multi[ty['adt']][2]:
+            fty = f['ty']
+            if isinstance(fty, dict) and 'param' in fty and fty['param'] in sub:
+                fty = sub[fty['param']]
+            out.append((f['name'], fty))
+        return out
+    if ty.get('adt') == 'std::option::Option' and ty.get('args'):
+        el = ty['args'][0]
+        if isinstance(el, dict) and el.get('adt') in facts.adts and el.get('adt') not in view_adts:
+            a = facts.adts[el['adt']]
+            if a.get('kind') == 'Struct' and len(a.get('variants', [])) == 1 and a['variants'][0]['fields']:
+                sub = dict(zip(a.get('generics', []), el.get('args', [])))
+                out = []
+                for f in a['variants'][0]['fields']:
+                    fty = f['ty']
+                    if isinstance(fty, dict) and 'param' in fty and fty['param'] in sub:
+                        fty = sub[fty['param']]
+                    out.append((f['name'], fty))
+                return out
+    return None
 
 
 def is_buffer_ty(ty):
@@ -524,6 +565,13 @@ def build_views(facts):
                         gens = inner.get('generics', [])
                         args = ty.get('args', [])
                         add_fields(inner, prefix + fld['name'] + '.', {g: a for g, a in zip(gens, args)}, depth + 1)
+                        continue
+                    elif oos_components(facts, ty) and not is_buffer_ty(ty):
+                        for cn, cty in oos_components(facts, ty):
+                            cf = Field(prefix + fld['name'] + '.' + cn, {'adt': 'std::option::Option', 'args': [cty]},
+                                       'std::option::Option<%s>' % (cty.get('param') or cty.get('prim') or '?'))
+                            cf.role = 'cell'
+                            v.fields.append(cf)
                         continue
                     elif is_buffer_ty(ty):
                         f.role = 'buffer'
